@@ -106,6 +106,10 @@ def observe(sysm, traj, structure, rel, window, cut):
     norm = (sysm.AO / vol) * (4 / 3) * math.pi * ((x + sysm.rdf_res) ** 3 - x ** 3)
     v = np.asarray(r.y) * norm
     out['rdf'] = [int(round(q)) if abs(q - round(q)) < 1e-6 * max(1.0, abs(q)) else -999999 for q in v]
+    if sysm.state_rdf:
+        from .c11 import parse_state_rdfs
+        rd = tr.radial_distribution(floating_specie='Li', max_dist=sysm.rdf_max, resolution=sysm.rdf_res)
+        out['state_rdfs'], out['state_rdfs_ok'] = parse_state_rdfs(rd, {'A': 0, 'B': 1}, {'Li': 0, 'O': 1}, sysm.rdf_nb)
     return out
 
 
@@ -139,15 +143,18 @@ def run(rep):
     made = 0
     while made < n_sys:
         b += 1
-        sysm = System(rng, fams[b % 6])
+        sysm = System(rng, fams[b % len(fams)])
         pos_all = np.concatenate([sysm.pos_f, sysm.pos_o], axis=1)
         qs = {gen.min_image_sq(sysm.G, [int(pos_all[t, i, c] - pos_all[t, jj, c]) for c in range(3)], N, sysm.R)
-              for t in range(sysm.T) for i in range(sysm.AF) for jj in range(sysm.AF, sysm.AF + sysm.AO)}
+              for t in range(sysm.T) for i in range(sysm.AF) for jj in range(sysm.AF + sysm.AO) if jj != i}
+        sysm.state_rdf = 0 not in qs            # two atoms on the same point sit on the first bin edge: outside the margin rule
+        qs.discard(0)
         thr_rdf = None
         for _ in range(50):
             sysm.rdf_res, sysm.rdf_max = float(rng.uniform(0.4, 1.0)), float(rng.uniform(2.5, 5.0))
             nb = len(np.arange(0, sysm.rdf_max + sysm.rdf_res, sysm.rdf_res)) - 1
             thr_rdf = thresholds(sysm.rdf_res, nb, qs)
+            sysm.rdf_nb = nb
             if thr_rdf:
                 break
         if not thr_rdf:
@@ -193,6 +200,10 @@ def run(rep):
             if len(o['rdf']) == len(thr_rdf):
                 rdf.append({'b': bid, 'act': 'Between', 'G': sysm.G, 'N': N, 'R': sysm.R, 'pos': pos_all.tolist(), 'a1': a1, 'a2': a2, 'thr': thr_rdf,
                             'hist12': o['rdf'], 'hist21': o['rdf'], 'meta': meta})
+            if sysm.state_rdf and o.get('state_rdfs_ok'):
+                rdf.append({'b': bid, 'act': 'States', 'G': sysm.G, 'N': N, 'R': sysm.R, 'pos': pos_all.tolist(), 'F': a1, 'hist': o['hist'],
+                            'labels': [0 if x == 'A' else 1 for x in sysm.labels], 'symbols': [[0, a1], [1, a2]], 'thr': thr_rdf,
+                            'rdfs': o['state_rdfs'], 'meta': meta})
             rep.evaluations += 1
             if not half and not (abs(o['tracer'] - ref_tracer) <= 1e-9 * max(abs(ref_tracer), 1e-30)):
                 tracer_bad.append({'kind': 'metamorphic', 'clause': 'tracer-diffusivity-changes-with-representation', 'meta': meta,
@@ -203,7 +214,7 @@ def run(rep):
     from gemdat.volume import FreeEnergyVolume
     import networkx as nx
     for k in range(12 if quick else 200):
-        fam = fams[k % 6]
+        fam = fams[k % len(fams)]
         G = gen.FAMILIES[fam]
         lens = [int(round(math.sqrt(G[i][i]))) for i in range(3)]
         T, A = int(rng.integers(2, 7)), int(rng.integers(1, 5))
